@@ -1,6 +1,6 @@
 (* C03 — Derivatives are tracked by variable name, whatever the internal layout. *)
 From Coq Require Import Reals ZArith List Bool Lra.
-From RL Require Import Base.Num Base.Str Base.NumR Model.Dual Proofs.NumRP Proofs.DualP Proofs.Dual2P Proofs.LayoutP.
+From RL Require Import Base.Num Base.Str Base.NumR Base.Outcome Model.Dual Proofs.NumRP Proofs.DualP Proofs.Dual2P Proofs.LayoutP Proofs.RelistP.
 Import ListNotations.
 Open Scope R_scope.
 
@@ -113,6 +113,90 @@ Proof.
   destruct (mem v target) eqn:M; auto. apply mem_false in M. symmetry. apply coef_notin. auto.
 Qed.
 
+(* the PUBLIC re-listing call `a.to_new_vars(target, None)` (the relationship is found by vars_cmp: the same Arc (p),
+   an equal list, a superset, a subset, unrelated): for ANY duplicate-free target the result is well formed, lists
+   exactly the target, keeps the value and has per name the coefficient of `a` on the names the target has and zero
+   elsewhere; when the target has all of a's names nothing observable changes *)
+Theorem C03_relisting_auto : forall p (a : dual R) target, wf a -> NoDup target -> (p = true -> vs a = target) ->
+  wf (to_new_vars_auto p a target) /\ vs (to_new_vars_auto p a target) = target /\
+  re (to_new_vars_auto p a target) = re a /\
+  (forall v, coef (to_new_vars_auto p a target) v = if mem v target then coef a v else 0) /\
+  ((forall v, In v (vs a) -> In v target) -> to_new_vars_auto p a target ≈ a).
+Proof.
+  intros p a target WA ND HP. destruct (to_new_vars_auto_spec p a target WA ND HP) as (A & B & C & D).
+  repeat split; auto; try apply A; apply (to_new_vars_auto_deq p a target WA ND HP); auto.
+Qed.
+Theorem C03_relisting_auto2 : forall p (a : dual2 R) target, wf2 a -> NoDup target -> (p = true -> vs2 a = target) ->
+  wf2 (to_new_vars2_auto p a target) /\ vs2 (to_new_vars2_auto p a target) = target /\
+  re2 (to_new_vars2_auto p a target) = re2 a /\
+  (forall v, coef1 (to_new_vars2_auto p a target) v = if mem v target then coef1 a v else 0) /\
+  (forall u v, coef2 (to_new_vars2_auto p a target) u v = if mem u target && mem v target then coef2 a u v else 0) /\
+  ((forall v, In v (vs2 a) -> In v target) -> to_new_vars2_auto p a target ≈₂ a).
+Proof.
+  intros p a target WA ND HP. destruct (to_new_vars2_auto_spec p a target WA ND HP) as (A & B & C & D1 & D2).
+  split; [exact A|]. split; [exact B|]. split; [exact C|]. split; [exact D1|]. split; [exact D2|].
+  apply (to_new_vars2_auto_deq p a target WA ND HP).
+Qed.
+
+(* the PUBLIC pairing call `a.to_union_vars(&b, None)`: the two results share one duplicate-free list holding exactly
+   the union of the names, are well formed, and each keeps its value and its coefficient per name *)
+Theorem C03_union_vars : forall p (a b : dual R), wf a -> wf b -> (p = true -> vs a = vs b) ->
+  let '(x, y) := to_union_vars_auto p a b in
+  vs x = vs y /\ wf x /\ wf y /\ re x = re a /\ re y = re b /\
+  (forall v, coef x v = coef a v) /\ (forall v, coef y v = coef b v) /\
+  (forall v, In v (vs x) <-> In v (vs a) \/ In v (vs b)).
+Proof.
+  intros p a b WA WB HP. pose proof (to_union_vars_auto_spec p a b WA WB HP) as S.
+  destruct (to_union_vars_auto p a b) as [x y].
+  destruct S as [Avs [NX LX] [NY LY] Arx Ary Acx Acy Ain]. repeat split; auto; apply Ain.
+Qed.
+Theorem C03_union_vars2 : forall p (a b : dual2 R), wf2 a -> wf2 b -> (p = true -> vs2 a = vs2 b) ->
+  let '(x, y) := to_union_vars2_auto p a b in
+  vs2 x = vs2 y /\ wf2 x /\ wf2 y /\ re2 x = re2 a /\ re2 y = re2 b /\
+  (forall v, coef1 x v = coef1 a v) /\ (forall v, coef1 y v = coef1 b v) /\
+  (forall u v, coef2 x u v = coef2 a u v) /\ (forall u v, coef2 y u v = coef2 b u v) /\
+  (forall v, In v (vs2 x) <-> In v (vs2 a) \/ In v (vs2 b)).
+Proof.
+  intros p a b WA WB HP. pose proof (to_union_vars2_auto_spec p a b WA WB HP) as S.
+  destruct (to_union_vars2_auto p a b) as [x y].
+  destruct S as [Avs WX WY Arx Ary Acx Acy Accx Accy Ain]. repeat split; auto; try apply WX; try apply WY; apply Ain.
+Qed.
+
+(* constructors on another number's variable list (`other` = the duplicate-free names of any number of either order):
+   `try_new_from` fails exactly when `try_new` fails (never aborts); otherwise the number is well formed, lists exactly
+   `other`'s names, has the requested value, and per name the coefficient `try_new` would give on shared names, zero
+   elsewhere (names given but absent from `other` are dropped).  `new_from`: unit sensitivities on the shared names. *)
+Theorem C03_new_from : forall other r vars d, NoDup other ->
+  match dual_try_new r vars d with
+  | Ok n => exists x, dual_try_new_from other r vars d = Ok x /\ wf x /\ vs x = other /\ re x = r /\
+                      forall v, coef x v = if mem v other then coef n v else 0
+  | Err => dual_try_new_from other r vars d = Err
+  | Panic => False
+  end /\
+  (dual_try_new r vars d = Err <->
+   length (dedup vars) <> length (match d with [] => vones (length (dedup vars)) | _ => d end)) /\
+  (wf (dual_new_from other r vars) /\ vs (dual_new_from other r vars) = other /\ re (dual_new_from other r vars) = r /\
+   forall v, coef (dual_new_from other r vars) v = if mem v other && mem v vars then 1 else 0).
+Proof.
+  intros other r vars d ND. split; [apply dual_try_new_from_spec; exact ND|].
+  split; [apply dual_try_new_err|apply dual_new_from_spec; exact ND].
+Qed.
+Theorem C03_new_from2 : forall other r vars d d2, NoDup other ->
+  match dual2_try_new r vars d d2 with
+  | Ok n => exists x, dual2_try_new_from other r vars d d2 = Ok x /\ wf2 x /\ vs2 x = other /\ re2 x = r /\
+                      (forall v, coef1 x v = if mem v other then coef1 n v else 0) /\
+                      (forall u v, coef2 x u v = if mem u other && mem v other then coef2 n u v else 0)
+  | Err => dual2_try_new_from other r vars d d2 = Err
+  | Panic => False
+  end /\
+  (wf2 (dual2_new_from other r vars) /\ vs2 (dual2_new_from other r vars) = other /\
+   re2 (dual2_new_from other r vars) = r /\
+   (forall v, coef1 (dual2_new_from other r vars) v = if mem v other && mem v vars then 1 else 0) /\
+   forall u v, coef2 (dual2_new_from other r vars) u v = 0).
+Proof.
+  intros other r vars d d2 ND. split; [apply dual2_try_new_from_spec; exact ND|apply dual2_new_from_spec; exact ND].
+Qed.
+
 Example C03_example :
   let x := [120%Z] in let y := [121%Z] in
   let a := mkDual 2 [x; y] [3; 0] in let b := mkDual 2 [y; x] [0; 3] in let c := mkDual 2 [x] [3] in
@@ -131,3 +215,9 @@ Print Assumptions C03_layout_independent_dual2.
 Print Assumptions C03_eq_spec.
 Print Assumptions C03_eq_spec2.
 Print Assumptions C03_relisting.
+Print Assumptions C03_relisting_auto.
+Print Assumptions C03_relisting_auto2.
+Print Assumptions C03_union_vars.
+Print Assumptions C03_union_vars2.
+Print Assumptions C03_new_from.
+Print Assumptions C03_new_from2.
